@@ -569,14 +569,14 @@ func (e *Engine) solve(fc *FnCtx) {
 			continue
 		}
 		first := o.Status
-		single, _ := fc.sc.render(e.timeoutMs, map[*Obligation]bool{o: true})
+		single := fc.sc.renderSingle(o, false)
 		var sat bool
-		for si, sv := range solvers {
+		for _, sv := range solvers {
 			// (the first back end is retried too: alone in a fresh process it often decides what it gave up on inside the batch)
 			t1 := time.Now()
 			s2 := single
-			if si == 0 || first == "sat" {
-				s2 = strings.Replace(single, "(check-sat)\n", "(check-sat)\n(get-model)\n", 1)
+			if first == "sat" {
+				s2 = fc.sc.renderSingle(o, true)
 			}
 			tg := tag + "_1"
 			if e.debug != "" && strings.Contains(o.Name, e.debug) {
